@@ -10,7 +10,8 @@ META = {
         "data-carrying WriteActions); R3 persist_response's variant table routes every payload-carrying response to "
         "put_value/apply_map; R4 apply_map's operation table; R5 initialisers finish with InitComplete after the stored "
         "entries; R6 the agent acks StoreInitialized only after initialize succeeded; R7 store ids are None only on the "
-        "transient edge."),
+        "transient edge. R9 id allocation discipline incl. the counter's merge operator and restore id = persist id = returned id; R10 the RocksDB store applies each operation to that lane's own entries (operation table, clear range)."
+),
     "does_not_decide": "that either store returns on restart what it was handed for all histories (C13; R10 checks the operation table and the clear range only), crash atomicity inside RocksDB, the agent-side fold of the init stream",
     "assumptions": ["NodePersistence::put_value/update_map/... are synchronous: when they return Ok the store has the data"],
 }
